@@ -4,6 +4,22 @@ C05 (split) — which bytes get hashed, written and installed: `ExpandApk`, `exp
 Model: `Apko/Model/ExpandSplit.lean`.  gzip (one member at the head of a byte string), tar and the two hash functions
 are parameters; no injectivity.  `Gz.Local` (a member is recognised from its own bytes) is the one property of gzip the
 `ExpandApk` theorems use — `expandApkWriter.Next` reads the first stream file back on its own.
+
+Proved for ALL gzip / tar / hash functions, sources, and chunkings `rd` of the source:
+* `sizes_exact`, `tar_cache_is_gunzip`   for ANY size of the reads before the data section: the recorded sizes are the lengths of
+                                  the stream files, which are consecutive ranges covering the source; the `.tar` handed on is the
+                                  multistream gunzip of the `.tar.gz`, on both paths of `PackageData()`;
+* `stream_exact` (`impl_stream_exact`)  one-byte reads (`tie_slowChunk`), `Gz.Local`, the repaired end of the loop (`tie_strict`): what is
+                                  accepted was written and hashed along exactly the ranges of the format (`ranges`), and the tar walk
+                                  of the gunzip of the data range passed `checkSums`; corollaries `control_hash_exact`,
+                                  `data_hash_exact`, `files_written_exact`; `stream_exact_partial` for the pinned end of the loop
+                                  (hypothesis: the data branch ran), `pinned_stream_not_exact` / `pinned_accepts_unchecked_stream`
+                                  (F05f) refute the full statement there, `repaired_refuses_unchecked_stream`;
+* `read_ahead_hashes_beyond_control`    what reads of more than one byte do (why `expandApkReader` exists);
+* `split_exact`, `resolve_exact`, `expand_split_agree`   `Split` / `ResolveApk` cut and hash the same ranges;
+* `expand_refines`, `expandPackageStream_refines`, `install_authentic_stream`   composition with Proofs/C05: `install_authentic`
+                                  with the hashes derived from the fetched bytes;
+* `cachedData_gunzip`, `tar_cache_inv_preserved_partial`, `tar_cache_inv_needs_collision_freedom`   the `.dat.tar` of the cache.
 -/
 import Apko.Model.ExpandSplit
 import Apko.Generated.Split
@@ -472,9 +488,9 @@ theorem finish_ok (G : Gz) (strict : Bool) (st : St) (o : Out) (h : finish G str
       intro hst; cases hck : st.checked <;> simp [hst, hck] at hk ⊢
   · cases h
 
-theorem expandStream_ok (G : Gz) (H : Hashes) (c : Nat) (strict : Bool) (src : Bytes) (o : Out)
-    (h : expandStream G H c strict src = .ok o) :
-    ∃ st, loop G H c loopFuel { src := src } = .ok st ∧ finish G strict st = .ok o := by
+theorem expandStream_ok (G : Gz) (H : Hashes) (c : Nat) (rd : Nat → Nat) (strict : Bool) (src : Bytes) (o : Out)
+    (h : expandStream G H c rd strict src = .ok o) :
+    ∃ st, loop G H c rd loopFuel { src := src } = .ok st ∧ finish G strict st = .ok o := by
   unfold expandStream at h
   split at h
   · cases h
@@ -486,14 +502,14 @@ theorem expandStream_ok (G : Gz) (H : Hashes) (c : Nat) (strict : Bool) (src : B
 /-- `sizes_exact`: the recorded sizes are the lengths of the stream files, the stream files are consecutive ranges that
 cover the source exactly (C09's `ranges_partition` uses them), `Size` is the length of the source — whatever the
 read-ahead is -/
-theorem sizes_exact (G : Gz) (H : Hashes) (c : Nat) (strict : Bool) (src : Bytes) (o : Out)
-    (h : expandStream G H c strict src = .ok o) :
+theorem sizes_exact (G : Gz) (H : Hashes) (c : Nat) (rd : Nat → Nat) (strict : Bool) (src : Bytes) (o : Out)
+    (h : expandStream G H c rd strict src = .ok o) :
     o.sigFile.getD [] ++ o.controlFile ++ o.packageFile = src ∧
     o.sigSize = (o.sigFile.getD []).length ∧ o.controlSize = o.controlFile.length ∧
     o.packageSize = o.packageFile.length ∧ o.size = src.length ∧
     o.size = o.sigSize + o.controlSize + o.packageSize := by
-  obtain ⟨st, hl, hf⟩ := expandStream_ok _ _ _ _ _ _ h
-  have hfin := loop_inv G H c src loopFuel { src := src } st (by simp) rfl rfl rfl hl
+  obtain ⟨st, hl, hf⟩ := expandStream_ok _ _ _ _ _ _ _ h
+  have hfin := loop_inv G H c rd src loopFuel { src := src } st (by simp) rfl rfl rfl hl
   obtain ⟨_, hshape⟩ := finish_ok _ _ _ _ hf
   have hp := hfin.partition
   rcases hshape with ⟨c1, d, hc, hd, hs, _, hb⟩ | ⟨s, c1, d, hs', hc, hd, hs, _, hb⟩
@@ -511,12 +527,12 @@ theorem sizes_exact (G : Gz) (H : Hashes) (c : Nat) (strict : Bool) (src : Bytes
 /-- `tar_cache_is_gunzip`: the `.tar` an expansion hands on is the (multistream) gunzip of its `.tar.gz`, its index is
 the tar walk of those bytes, and `PackageData()` returns the same bytes on both of its paths (the `.tar` written by the
 loop / none there: gunzip of the `.tar.gz`) — whatever the read-ahead is, checked or not -/
-theorem tar_cache_is_gunzip (G : Gz) (H : Hashes) (c : Nat) (strict : Bool) (src : Bytes) (o : Out)
-    (h : expandStream G H c strict src = .ok o) :
+theorem tar_cache_is_gunzip (G : Gz) (H : Hashes) (c : Nat) (rd : Nat → Nat) (strict : Bool) (src : Bytes) (o : Out)
+    (h : expandStream G H c rd strict src = .ok o) :
     gunzipAll G o.packageFile = some o.tarFile ∧ G.untar o.tarFile = some o.files ∧
     packageData G (some o.tarFile) o.packageFile = packageData G none o.packageFile := by
-  obtain ⟨st, hl, hf⟩ := expandStream_ok _ _ _ _ _ _ h
-  have hfin := loop_inv G H c src loopFuel { src := src } st (by simp) rfl rfl rfl hl
+  obtain ⟨st, hl, hf⟩ := expandStream_ok _ _ _ _ _ _ _ h
+  have hfin := loop_inv G H c rd src loopFuel { src := src } st (by simp) rfl rfl rfl hl
   obtain ⟨_, hshape⟩ := finish_ok _ _ _ _ hf
   have key : ∀ (sig : Option (Bytes × Digest)) (c1 d : Bytes) (hc hd : Digest),
       st.streams.getLast? = some d → build G st sig c1 d hc hd = .ok o →
@@ -558,18 +574,18 @@ structure Exact (G : Gz) (H : Hashes) (src : Bytes) (o : Out) (r : Ranges) : Pro
 
 /-- the full statement, for an algorithm `strict` -/
 def StreamExact (strict : Bool) : Prop :=
-  ∀ (G : Gz) (H : Hashes), G.Local → ∀ (src : Bytes) (o : Out),
-    expandStream G H Impl.slowChunk strict src = .ok o → ∃ r, Exact G H src o r
+  ∀ (G : Gz) (H : Hashes), G.Local → ∀ (rd : Nat → Nat) (src : Bytes) (o : Out),
+    expandStream G H Impl.slowChunk rd strict src = .ok o → ∃ r, Exact G H src o r
 
-theorem stream_exact_partial (G : Gz) (H : Hashes) (hloc : G.Local) (strict : Bool) (src : Bytes) (o : Out)
-    (h : expandStream G H Impl.slowChunk strict src = .ok o) (hk : o.checked = true) : ∃ r, Exact G H src o r := by
-  obtain ⟨st, hl, hf⟩ := expandStream_ok _ _ _ _ _ _ h
+theorem stream_exact_partial (G : Gz) (H : Hashes) (hloc : G.Local) (rd : Nat → Nat) (strict : Bool) (src : Bytes) (o : Out)
+    (h : expandStream G H Impl.slowChunk rd strict src = .ok o) (hk : o.checked = true) : ∃ r, Exact G H src o r := by
+  obtain ⟨st, hl, hf⟩ := expandStream_ok _ _ _ _ _ _ _ h
   obtain ⟨_, hshape⟩ := finish_ok _ _ _ _ hf
   have hck : st.checked = true := by
     rcases hshape with ⟨c1, d, hc, hd, _, _, hb⟩ | ⟨s, c1, d, hs', hc, hd, _, _, hb⟩
     · obtain ⟨_, _, _, _, _, _, ho⟩ := build_ok _ _ _ _ _ _ _ _ hb; subst ho; exact hk
     · obtain ⟨_, _, _, _, _, _, ho⟩ := build_ok _ _ _ _ _ _ _ _ hb; subst ho; exact hk
-  obtain ⟨r, t, es, hr, _, hst, hh, hgz, htar, hut, hcs⟩ := loop_checked G H hloc src st hl hck
+  obtain ⟨r, t, es, hr, _, hst, hh, hgz, htar, hut, hcs⟩ := loop_checked G H hloc rd src st hl hck
   refine ⟨r, ?_⟩
   rcases hshape with ⟨c1, d, hc, hd, hs, hhs, hb⟩ | ⟨s, c1, d, hs', hc, hd, hs, hhs, hb⟩
   · obtain ⟨_, t2, es2, _, hpd, hut2, ho⟩ := build_ok _ _ _ _ _ _ _ _ hb
@@ -598,9 +614,9 @@ theorem stream_exact_partial (G : Gz) (H : Hashes) (hloc : G.Local) (strict : Bo
       exact ⟨hr, by simp [hsig], by simp [hsig, hst.1], hst.2.1, hst.2.2, by simp [hsig, hh.1], by rw [hh.2.1], by rw [hh.2.2],
              hgz, hut, hcs⟩
 
-theorem strict_checked (G : Gz) (H : Hashes) (c : Nat) (src : Bytes) (o : Out)
-    (h : expandStream G H c true src = .ok o) : o.checked = true := by
-  obtain ⟨st, _, hf⟩ := expandStream_ok _ _ _ _ _ _ h
+theorem strict_checked (G : Gz) (H : Hashes) (c : Nat) (rd : Nat → Nat) (src : Bytes) (o : Out)
+    (h : expandStream G H c rd true src = .ok o) : o.checked = true := by
+  obtain ⟨st, _, hf⟩ := expandStream_ok _ _ _ _ _ _ _ h
   obtain ⟨hk, hshape⟩ := finish_ok _ _ _ _ hf
   rcases hshape with ⟨c1, d, hc, hd, _, _, hb⟩ | ⟨s, c1, d, hs', hc, hd, _, _, hb⟩
   · obtain ⟨_, _, _, _, _, _, ho⟩ := build_ok _ _ _ _ _ _ _ _ hb; subst ho; exact hk rfl
@@ -608,44 +624,44 @@ theorem strict_checked (G : Gz) (H : Hashes) (c : Nat) (src : Bytes) (o : Out)
 
 /-- the repaired algorithm: every accepted stream was written and hashed along the ranges of the format -/
 theorem stream_exact : StreamExact true := by
-  intro G H hloc src o h
-  exact stream_exact_partial G H hloc true src o h (strict_checked G H _ src o h)
+  intro G H hloc rd src o h
+  exact stream_exact_partial G H hloc rd true src o h (strict_checked G H _ rd src o h)
 
 
 /-- that is the algorithm the code runs today (`tie_strict`, `tie_slowChunk`) -/
-theorem impl_stream_exact (G : Gz) (H : Hashes) (hloc : G.Local) (src : Bytes) (o : Out)
-    (h : Impl.expandStream G H src = .ok o) : ∃ r, Exact G H src o r :=
-  stream_exact G H hloc src o h
+theorem impl_stream_exact (G : Gz) (H : Hashes) (hloc : G.Local) (rd : Nat → Nat) (src : Bytes) (o : Out)
+    (h : Impl.expandStream G H rd src = .ok o) : ∃ r, Exact G H src o r :=
+  stream_exact G H hloc rd src o h
 
 /-- `control_hash_exact`: the value compared with the index checksum is the SHA-1 of exactly the bytes of the control
 member — for signed (the second member) and unsigned (the first member) packages alike -/
-theorem control_hash_exact (G : Gz) (H : Hashes) (hloc : G.Local) (src : Bytes) (o : Out)
-    (h : expandStream G H Impl.slowChunk true src = .ok o) :
+theorem control_hash_exact (G : Gz) (H : Hashes) (hloc : G.Local) (rd : Nat → Nat) (src : Bytes) (o : Out)
+    (h : expandStream G H Impl.slowChunk rd true src = .ok o) :
     ∃ r, ranges G src = some r ∧ o.controlFile = r.control ∧ o.controlHash = H.sha1 r.control ∧
       o.sigHash = r.sig.map H.sha1 := by
-  obtain ⟨r, e⟩ := stream_exact G H hloc src o h
+  obtain ⟨r, e⟩ := stream_exact G H hloc rd src o h
   exact ⟨r, e.ranges, e.controlFile, e.controlHash, e.sigHash⟩
 
 /-- `data_hash_exact`: the value compared with the datahash of .PKGINFO is the SHA-256 of exactly the bytes from the
 start of the data member to the end of the source -/
-theorem data_hash_exact (G : Gz) (H : Hashes) (hloc : G.Local) (src : Bytes) (o : Out)
-    (h : expandStream G H Impl.slowChunk true src = .ok o) :
+theorem data_hash_exact (G : Gz) (H : Hashes) (hloc : G.Local) (rd : Nat → Nat) (src : Bytes) (o : Out)
+    (h : expandStream G H Impl.slowChunk rd true src = .ok o) :
     ∃ r, ranges G src = some r ∧ o.packageFile = r.data ∧ o.packageHash = H.sha256 r.data ∧
       r.sig.getD [] ++ r.control ++ r.data = src := by
-  obtain ⟨r, e⟩ := stream_exact G H hloc src o h
+  obtain ⟨r, e⟩ := stream_exact G H hloc rd src o h
   refine ⟨r, e.ranges, e.packageFile, e.packageHash, ?_⟩
-  have := (sizes_exact G H _ true src o h).1
+  have := (sizes_exact G H _ rd true src o h).1
   rw [e.sigFile, e.controlFile, e.packageFile] at this
   exact this
 
 /-- `files_written_exact`: the per-member files on disk hold exactly the members' bytes; the `.tar` is the gunzip of
 the data range and what gets installed is its tar walk, which passed `checkSums` -/
-theorem files_written_exact (G : Gz) (H : Hashes) (hloc : G.Local) (src : Bytes) (o : Out)
-    (h : expandStream G H Impl.slowChunk true src = .ok o) :
+theorem files_written_exact (G : Gz) (H : Hashes) (hloc : G.Local) (rd : Nat → Nat) (src : Bytes) (o : Out)
+    (h : expandStream G H Impl.slowChunk rd true src = .ok o) :
     ∃ r, ranges G src = some r ∧ o.sigFile = r.sig ∧ o.controlFile = r.control ∧ o.packageFile = r.data ∧
       o.signed = r.sig.isSome ∧ gunzipAll G r.data = some o.tarFile ∧ G.untar o.tarFile = some o.files ∧
       checkSums (libOf G H) o.files = true := by
-  obtain ⟨r, e⟩ := stream_exact G H hloc src o h
+  obtain ⟨r, e⟩ := stream_exact G H hloc rd src o h
   exact ⟨r, e.ranges, e.sigFile, e.controlFile, e.packageFile, e.signed, e.tar, e.files, e.checked⟩
 
 /-! ### `Split` / `ResolveApk` -/
@@ -698,10 +714,10 @@ theorem resolve_exact (G : Gz) (H : Hashes) (src : Bytes) (rs : Resolved) (h : r
   · cases h
 
 /-- the two splitters agree: what `ExpandApk` (repaired) accepts, `Split` cuts at the same places -/
-theorem expand_split_agree (G : Gz) (H : Hashes) (hloc : G.Local) (src : Bytes) (o : Out)
-    (h : expandStream G H Impl.slowChunk true src = .ok o) :
+theorem expand_split_agree (G : Gz) (H : Hashes) (hloc : G.Local) (rd : Nat → Nat) (src : Bytes) (o : Out)
+    (h : expandStream G H Impl.slowChunk rd true src = .ok o) :
     splitParts G src = .ok (o.sigFile.toList ++ [o.controlFile, o.packageFile]) := by
-  obtain ⟨r, e⟩ := stream_exact G H hloc src o h
+  obtain ⟨r, e⟩ := stream_exact G H hloc rd src o h
   have hr := e.ranges
   rw [e.sigFile, e.controlFile, e.packageFile]
   unfold ranges at hr
@@ -726,10 +742,10 @@ theorem expand_split_agree (G : Gz) (H : Hashes) (hloc : G.Local) (src : Bytes) 
 
 /-- an accepted, checked stream is `Authentic.expand` of the ranges of the format, for the library that goes with the
 gzip / tar / hash functions: the `Apk` the theorems of Proofs/C05 take as given is the one the stream defines -/
-theorem expand_refines (G : Gz) (H : Hashes) (hloc : G.Local) (strict : Bool) (src : Bytes) (o : Out)
-    (h : expandStream G H Impl.slowChunk strict src = .ok o) (hk : o.checked = true) :
+theorem expand_refines (G : Gz) (H : Hashes) (hloc : G.Local) (rd : Nat → Nat) (strict : Bool) (src : Bytes) (o : Out)
+    (h : expandStream G H Impl.slowChunk rd strict src = .ok o) (hk : o.checked = true) :
     ∃ r, ranges G src = some r ∧ expand (libOf G H) r.apk = .ok o.expanded := by
-  obtain ⟨r, e⟩ := stream_exact_partial G H hloc strict src o h hk
+  obtain ⟨r, e⟩ := stream_exact_partial G H hloc rd strict src o h hk
   refine ⟨r, e.ranges, ?_⟩
   have hu : (libOf G H).untarData r.data = some o.files := by
     simp [libOf, e.tar, e.files]
@@ -739,9 +755,9 @@ theorem expand_refines (G : Gz) (H : Hashes) (hloc : G.Local) (strict : Bool) (s
 
 /-- whatever `expandPackage` returns for a fetched STREAM, `expandPackage` of Model/Authentic returns for the `Apk` cut
 out of it along the ranges of the format -/
-theorem expandPackageStream_refines (G : Gz) (H : Hashes) (hloc : G.Local) (verify : Bool) (w : Want)
+theorem expandPackageStream_refines (G : Gz) (H : Hashes) (hloc : G.Local) (rd : Nat → Nat) (verify : Bool) (w : Want)
     (cache cache2 : Option Cache) (fetched : Option Bytes) (e : Expanded)
-    (h : expandPackageStream verify true G H w cache fetched = .ok (e, cache2)) :
+    (h : expandPackageStream verify true G H rd w cache fetched = .ok (e, cache2)) :
     ∃ fa : Option Apk, expandPackageWith verify (libOf G H) w cache fa = .ok (e, cache2) ∧
       (cache.bind (cachedPackage (libOf G H) w.key) = none →
         ∃ s r, fetched = some s ∧ ranges G s = some r ∧ fa = some r.apk) := by
@@ -758,7 +774,7 @@ theorem expandPackageStream_refines (G : Gz) (H : Hashes) (hloc : G.Local) (veri
       split at h
       · cases h
       · next o ho =>
-        obtain ⟨r, hr, hexp⟩ := expand_refines G H hloc true s o ho (strict_checked G H _ s o ho)
+        obtain ⟨r, hr, hexp⟩ := expand_refines G H hloc rd true s o ho (strict_checked G H _ rd s o ho)
         refine ⟨some r.apk, ?_, fun _ => ⟨s, r, rfl, hr, rfl⟩⟩
         unfold expandPackageWith
         rw [hmiss]
@@ -769,15 +785,15 @@ theorem expandPackageStream_refines (G : Gz) (H : Hashes) (hloc : G.Local) (veri
 for the bytes a repository serves — disabled, cold or warm cache — is authentic for the expected checksum; and when it
 came from the stream, the expected checksum is the SHA-1 of exactly the control member and the datahash of its .PKGINFO
 is the SHA-256 of exactly the rest of the stream (or is empty: F05c) -/
-theorem install_authentic_stream (G : Gz) (H : Hashes) (hloc : G.Local) (hx : HexCanonical (libOf G H)) (w : Want)
+theorem install_authentic_stream (G : Gz) (H : Hashes) (hloc : G.Local) (hx : HexCanonical (libOf G H)) (rd : Nat → Nat) (w : Want)
     (cache cache2 : Option Cache) (fetched : Option Bytes) (e : Expanded)
     (hinv : ∀ c, cache = some c → CacheInv (libOf G H) c)
-    (h : expandPackageStream true true G H w cache fetched = .ok (e, cache2)) :
+    (h : expandPackageStream true true G H rd w cache fetched = .ok (e, cache2)) :
     Authentic (libOf G H) w.digest e ∧ checkSums (libOf G H) e.files = true ∧
     (cache.bind (cachedPackage (libOf G H) w.key) = none →
       ∃ s r, fetched = some s ∧ ranges G s = some r ∧ w.digest = some (H.sha1 r.control) ∧
         DataMatches (libOf G H) r.control r.data ∧ r.sig.getD [] ++ r.control ++ r.data = s) := by
-  obtain ⟨fa, hfa, hsrc⟩ := expandPackageStream_refines G H hloc true w cache cache2 fetched e h
+  obtain ⟨fa, hfa, hsrc⟩ := expandPackageStream_refines G H hloc rd true w cache cache2 fetched e h
   obtain ⟨ha, hc⟩ := C05.install_authentic (libOf G H) hx w cache cache2 fa e hinv hfa
   refine ⟨ha, hc, ?_⟩
   intro hmiss
@@ -819,7 +835,7 @@ theorem install_authentic_stream (G : Gz) (H : Hashes) (hloc : G.Local) (hx : He
     split at h
     · cases h
     · next o ho =>
-      obtain ⟨r2, hr2, hpf, _, hpart⟩ := data_hash_exact G H hloc s o ho
+      obtain ⟨r2, hr2, hpf, _, hpart⟩ := data_hash_exact G H hloc rd s o ho
       rw [hr] at hr2; cases hr2
       exact hpart
 
@@ -937,7 +953,7 @@ theorem toyG_local : toyG.Local := by
 
 /-- a signed package of three members and a data section of two gzip members is accepted by the repaired algorithm,
 cut where the format says -/
-example : ∃ o, expandStream toyG toyH Impl.slowChunk true [7,1,0, 7,2,2, 7,5,5, 7,4,4] = .ok o ∧
+example : ∃ o, expandStream toyG toyH Impl.slowChunk (fun _ => 4096) true [7,1,0, 7,2,2, 7,5,5, 7,4,4] = .ok o ∧
     o.signed = true ∧ o.sigFile = some [7,1,0] ∧ o.controlFile = [7,2,2] ∧ o.packageFile = [7,5,5, 7,4,4] ∧
     o.controlHash = toyH.sha1 [7,2,2] ∧ o.packageHash = toyH.sha256 [7,5,5, 7,4,4] ∧ o.tarFile = [5,5,4,4] :=
   ⟨_, rfl, rfl, rfl, rfl, rfl, rfl, rfl, rfl⟩
@@ -946,7 +962,7 @@ example : ∃ o, expandStream toyG toyH Impl.slowChunk true [7,1,0, 7,2,2, 7,5,5
 unsigned package — the "control" hash is the SHA-1 of the signature member, the "data" hash a SHA-1 (not a SHA-256) of
 the control member, and `checkSums` never ran: a file whose record does not match is handed to the installer -/
 theorem pinned_accepts_unchecked_stream :
-    ∃ o r, expandStream toyG toyH Impl.slowChunk false [7,1,0, 7,6,6] = .ok o ∧ ranges toyG [7,1,0, 7,6,6] = some r ∧
+    ∃ o r, expandStream toyG toyH Impl.slowChunk (fun _ => 4096) false [7,1,0, 7,6,6] = .ok o ∧ ranges toyG [7,1,0, 7,6,6] = some r ∧
       o.checked = false ∧ checkSums (libOf toyG toyH) o.files = false ∧
       o.controlFile ≠ r.control ∧ o.packageHash ≠ toyH.sha256 o.packageFile :=
   ⟨_, _, rfl, rfl, rfl, by decide, by decide, by decide⟩
@@ -954,24 +970,25 @@ theorem pinned_accepts_unchecked_stream :
 /-- so the full statement is false for the pinned algorithm -/
 theorem pinned_stream_not_exact : ¬ StreamExact false := by
   intro h
-  obtain ⟨r, e⟩ := h toyG toyH toyG_local [7,1,0, 7,6,6] _ rfl
+  obtain ⟨r, e⟩ := h toyG toyH toyG_local (fun _ => 4096) [7,1,0, 7,6,6] _ rfl
   have := e.checked
   revert this
   decide
 
 theorem repaired_refuses_unchecked_stream :
-    expandStream toyG toyH Impl.slowChunk true [7,1,0, 7,6,6] = .error .nodata := rfl
+    expandStream toyG toyH Impl.slowChunk (fun _ => 4096) true [7,1,0, 7,6,6] = .error .nodata := rfl
 
-/-- reads of SIX bytes before the data section (any size above one does it, given a suitable source): the member after
+/-- a reader that passes on up to SIX bytes per read before the data section (any size above one does it, given a
+suitable source and chunking; here the source answers in chunks of 4096): the member after
 the control member is pulled with it, lands in the control file and in the control hash and is never seen by the loop —
 the control hash covers two members, the data hash starts one member late.  (A pulled tail that is NOT a whole member
 is noticed later, by `ControlData`, which gunzips the whole control file.)  With one-byte reads the same source is cut
 where the format says. -/
 theorem read_ahead_hashes_beyond_control :
-    ∃ o r o1, expandStream toyG toyH 6 true [7,2,2, 7,3,3, 7,5,5] = .ok o ∧ ranges toyG [7,2,2, 7,3,3, 7,5,5] = some r ∧
+    ∃ o r o1, expandStream toyG toyH 6 (fun _ => 4096) true [7,2,2, 7,3,3, 7,5,5] = .ok o ∧ ranges toyG [7,2,2, 7,3,3, 7,5,5] = some r ∧
       r.control = [7,2,2] ∧ o.controlFile = [7,2,2, 7,3,3] ∧ o.controlHash = toyH.sha1 [7,2,2, 7,3,3] ∧
       r.data = [7,3,3, 7,5,5] ∧ o.packageHash = toyH.sha256 [7,5,5] ∧
-      expandStream toyG toyH Impl.slowChunk true [7,2,2, 7,3,3, 7,5,5] = .ok o1 ∧
+      expandStream toyG toyH Impl.slowChunk (fun _ => 4096) true [7,2,2, 7,3,3, 7,5,5] = .ok o1 ∧
       o1.controlHash = toyH.sha1 [7,2,2] ∧ o1.packageHash = toyH.sha256 [7,3,3, 7,5,5] := by
   refine ⟨_, _, _, rfl, rfl, ?_, ?_, ?_, ?_, ?_, rfl, ?_, ?_⟩ <;> decide
 
